@@ -739,7 +739,7 @@ example : ∃ fuel' o, obsOfRef (Ref.runProgram 8 demoFcSmall Ref.initSt).1 = so
 
 A program text of F2 is a list of top-level forms of `Ff true ""`, where `Ff fnOk self` is: literals,
 symbols, `def`, `set`, `begin`, `cond`, `and`, `or`, non-empty `newScope`, `letseq`, `let` with pairwise
-distinct names, array literals, calls `(h a₁ … aₙ)`, and — in positions compiled when the
+distinct names, array literals, `for` loops (without `break`/`continue`), calls `(h a₁ … aₙ)`, and — in positions compiled when the
 text is loaded (`fnOk`: everywhere but inside the operands of a call) — `(fn [p₁ … pₙ] body…)` and
 `(defn name [p₁ … pₙ] body…)`, at top level or nested in function bodies to any depth: fixed arity,
 distinct parameters that are not lazy (`#p`) and not builtin names, a non-empty body in the fragment.
@@ -906,12 +906,21 @@ def demoF2Seq : List Expr :=
       [.newScope [.def_ "a" (.sym "c"), .arr [.sym "a", .sym "b", .sym "c"]]]],
    .call (.sym "g") [.int 1]]
 
+/-- `(defn sum [n] (def s 0) (for [(def i 0) (< i n) (set i (+ i 1))] (set s (+ s i))) s) (trace (sum 5))`: a loop in a
+function body -/
+def demoF2Loop : List Expr :=
+  [.defn "sum" ["n"] none [.def_ "s" (.int 0),
+      .for_ none (.def_ "i" (.int 0)) (.call (.sym "<") [.sym "i", .sym "n"]) (.set_ "i" (.call (.sym "+") [.sym "i", .int 1]))
+        [.set_ "s" (.call (.sym "+") [.sym "s", .sym "i"])], .sym "s"],
+   .call (.sym "trace") [.call (.sym "sum") [.int 5]]]
+
 macro "ft_mem2" d:ident : tactic =>
   `(tactic| simp [$d:ident, FtList, FfList, Ff, FaList, FfArms, FfBinds, okParam, okName, okBinder, okSym, okHead, foBuiltins, hoNames])
 
 example : FtList demoF2Acc = true := by ft_mem2 demoF2Acc
 example : FtList demoF2And = true := by ft_mem2 demoF2And
 example : FtList demoF2Seq = true := by ft_mem2 demoF2Seq
+example : FtList demoF2Loop = true := by ft_mem2 demoF2Loop
 example : FtList demoF2Scope = true := by ft_mem demoF2Scope
 example : FtList demoF2Val = true := by ft_mem demoF2Val
 example : FtList demoF2Arity = true := by ft_mem demoF2Arity
@@ -992,8 +1001,7 @@ or every top-level form in F2 -/
 def InProvedFragment (p : List Expr) : Prop := FvList p = true ∨ FcList p = true ∨ FtList p = true
 
 /-- **The part of `CompileCorrect` that is NOT proved**: programs that are in none of Fv, Fc, F2 —
-i.e. using user functions together with `for` loops (F2 has user functions but not yet loops; Fc
-has loops but only builtin calls), a `fn`/`defn` inside
+i.e. using a `fn`/`defn` inside
 an operand of a call (compiled at run time), with a rest parameter, lazy parameters or a self call
 in a directly compiled position, `map`/`apply`/`force`/`substitute`, computed call heads,
 `break`/`continue` (and so loops that use them), an empty `newScope`, or (together with calls or
@@ -1014,7 +1022,7 @@ def CompileCorrectOutsideProved : Prop := CompileCorrectOn (fun p => ¬ InProved
    * F2 — `defn`/`fn` of fixed arity at top level and nested, closures capturing (and assigning to)
      locals of the functions they were made in, calls of user functions by name (also through
      variables: functions are values), recursion, first-order builtins, `def`/`set`/`begin`/`cond`/
-     `and`/`or`/`newScope`/`letseq`/`let`/array literals;
+     `and`/`or`/`newScope`/`letseq`/`let`/array literals/`for` loops;
      values related modulo the numbering of closures — `compile_correct_on_F2`;
    * for the effect-free sub-fragment F0c with explicit fuel on both sides — `compile_correct_F0c`;
 2. the full `CompileCorrect` follows from its restriction to the remaining programs
@@ -1022,8 +1030,8 @@ def CompileCorrectOutsideProved : Prop := CompileCorrectOn (fun p => ¬ InProved
 3. the layout half for `begin`/`cond`/`and`/`or` as before (and `gen_for_layout` for loops).
 
 MISSING (held by the `eval` correspondence only): `CompileCorrectOutsideProved` — `break`/`continue`
-(the rest of F1; generator-side groundwork in Proofs/SimFbGen.lean), the rest of F2 (`for` loops
-next to user functions, `fn`/`defn` inside operands, varargs), F3 (self tail calls, `map`/`apply`,
+(the rest of F1; generator-side groundwork in Proofs/SimFbGen.lean), the rest of F2 (`fn`/`defn`
+inside operands, varargs), F3 (self tail calls, `map`/`apply`,
 lazy parameters). -/
 theorem compile_correct_partial :
     CompileCorrectOn InProvedFragment
